@@ -93,8 +93,8 @@ func (e *Enc) callWith(fr *frame, st *State, c *ssa.CallCommon, fnv Value, args 
 	if e.v.inRepo(fn) && fn.Parent() == nil {
 		e.checkPendingFieldInvs(st, pos)
 	}
-	if m, ok := trustedModels[key]; ok {
-		e.v.useTrusted(key)
+	if m, mname, ok := lookupModel2(key); ok {
+		e.v.useTrusted(mname)
 		curCall = c
 		defer func() { curCall = nil }()
 		return m(e, fr, st, args, prefix, rt)
@@ -109,7 +109,7 @@ func (e *Enc) callWith(fr *frame, st *State, c *ssa.CallCommon, fnv Value, args 
 		// in-repo function without contract: effects unknown, checked on its
 		// own under precondition true.
 		keys, all, ghosts := e.v.funcWrites(e, fn)
-		e.havocKeys(st, keys, all, ghosts)
+		e.havocKeys2(st, keys, all, ghosts, e.v.funcWriteSet(e, fn).closes)
 		e.v.uncontracted[key] = true
 		return e.freshResult(st, prefix, rt)
 	}
@@ -124,6 +124,10 @@ func (e *Enc) callWith(fr *frame, st *State, c *ssa.CallCommon, fnv Value, args 
 }
 
 func (e *Enc) havocKeys(st *State, keys []string, all, ghosts bool) {
+	e.havocKeys2(st, keys, all, ghosts, all)
+}
+
+func (e *Enc) havocKeys2(st *State, keys []string, all, ghosts, closes bool) {
 	if all {
 		st.havocAll(e.localRefs, nil)
 	} else {
@@ -135,8 +139,8 @@ func (e *Enc) havocKeys(st *State, keys []string, all, ghosts bool) {
 		st.assume("(<= " + st.ap + " " + nap + ")")
 		st.ap = nap
 	}
-	if all || ghosts {
-		for _, k := range []string{ghostSendCount, ghostClosed} {
+	for _, k := range []string{ghostSendCount, ghostClosed} {
+		if all || (k == ghostSendCount && ghosts) || (k == ghostClosed && closes) {
 			e.ghostGet(st, k)
 			st.ghost[k] = e.q.fresh("gh_"+k, e.q.ghostSort(k))
 		}
@@ -359,6 +363,8 @@ func (e *Enc) applyContract(fr *frame, st *State, con *Contract, fn *ssa.Functio
 	if !con.HasMod {
 		inferred = func() ([]string, bool, bool) { return e.v.funcWrites(e, fn) }
 	}
+	e.curSig = fn.Signature
+	defer func() { e.curSig = nil }()
 	return e.applyClauses(fr, st, con, fn.Pkg.Pkg, vars, inferred, prefix, rt, pos, funcDisplayName(fn))
 }
 
@@ -389,8 +395,23 @@ func (e *Enc) applyClauses(fr *frame, st *State, con *Contract, pkg *types.Packa
 			post.results = []Value{res}
 		}
 	}
+	if e.curSig != nil {
+		// named results of the callee
+		pv := map[string]Value{}
+		for k, val := range vars {
+			pv[k] = val
+		}
+		for i := 0; i < e.curSig.Results().Len() && i < len(post.results); i++ {
+			if n := e.curSig.Results().At(i).Name(); n != "" && n != "_" {
+				if _, clash := pv[n]; !clash {
+					pv[n] = post.results[i]
+				}
+			}
+		}
+		post.vars = pv
+	}
 	for _, c := range con.Ensures {
-		st.assume(e.evalClause(post, c))
+		st.assume(e.evalClauseAssume(post, c))
 	}
 	return res
 }
@@ -423,6 +444,17 @@ func (e *Enc) modTargets(env *SpecEnv, con *Contract) (targets []modTarget, all 
 				ghosts = append(ghosts, ghostClosed)
 			default:
 				env.errorf("unknown ghost %s", g)
+			}
+		case item == "all deques":
+			if _, ok := e.q.keySort("DQL"); !ok {
+				e.q.declareHeap("DQL", "(Array Int Int)")
+			}
+			targets = append(targets, modTarget{"DQL", ""})
+			for k := range globalHeapSort {
+				if strings.HasPrefix(k, "DQE:") {
+					e.q.keySort(k)
+					targets = append(targets, modTarget{k, ""})
+				}
 			}
 		case strings.HasPrefix(item, "all "):
 			rest := strings.TrimSpace(item[4:])
@@ -477,6 +509,15 @@ func (e *Enc) modTargetsOf(env *SpecEnv, x *Expr) []modTarget {
 		m := env.eval(x.Args[0])
 		d, v, l := e.mapKeys(m.typ)
 		return []modTarget{{d, m.term}, {v, m.term}, {l, m.term}}
+	case x.Op == "call" && x.Name == "deque" && len(x.Args) == 1:
+		pv := env.eval(x.Args[0])
+		// make sure the keys exist
+		env.eval(&Expr{Op: "call", Name: "dqlen", Args: x.Args})
+		var et types.Type
+		if n, ok := types.Unalias(pv.typ.Underlying().(*types.Pointer).Elem()).(*types.Named); ok && n.TypeArgs().Len() == 1 {
+			et = n.TypeArgs().At(0)
+		}
+		return []modTarget{{"DQL", pv.term}, {"DQE:" + shortTypeName(et), pv.term}}
 	case x.Op == "call" && x.Name == "elems" && len(x.Args) == 1:
 		s := env.eval(x.Args[0])
 		et := s.typ.Underlying().(*types.Slice).Elem()
@@ -551,7 +592,7 @@ func (e *Enc) havocModifies(env *SpecEnv, st *State, con *Contract) {
 			}
 			continue
 		}
-		sortOf := e.q.heapSort[t.key]
+		sortOf := e.q.sortOfKey(t.key)
 		cellSort := strings.TrimSuffix(strings.TrimPrefix(sortOf, "(Array Int "), ")")
 		nv := e.q.fresh("mod_"+t.key, cellSort)
 		st.set(t.key, store(st.get(t.key), t.idx, nv))
@@ -610,6 +651,17 @@ func (e *Enc) evalClause(env *SpecEnv, c *Clause) (term string) {
 	return env.evalBool(c.Expr)
 }
 
+// evalClauseAssume: a clause that cannot be evaluated contributes nothing
+// when assumed (the error is still reported).
+func (e *Enc) evalClauseAssume(env *SpecEnv, c *Clause) string {
+	n := len(e.v.specErrors)
+	t := e.evalClause(env, c)
+	if len(e.v.specErrors) > n {
+		return "true"
+	}
+	return t
+}
+
 func (e *Enc) obligeClause(env *SpecEnv, st *State, kind string, c *Clause, pos token.Pos) {
 	e.obligeClauseNamed(env, st, kind, c.Label, c, pos)
 }
@@ -626,8 +678,20 @@ func (e *Enc) obligeClauseNamed(env *SpecEnv, st *State, kind, label string, c *
 
 // callsiteChecks asserts the enclosing function's callsite clauses for calls
 // of the named callee.
+func callCountKey(callee string) string { return "calls_" + callee + "@(Array Int Int)" }
+
 func (e *Enc) callsiteChecks(fr *frame, st *State, callee string, fn *ssa.Function, args []Value, pos token.Pos) {
 	con := e.contract
+	if con != nil {
+		for _, cc := range con.CallCounts {
+			if cc.Callee == callee && cc.Arg < len(args) {
+				k := callCountKey(callee)
+				cur := e.ghostGet(st, k)
+				e.ghostSet(st, k, store(cur, args[cc.Arg].term, "(+ "+sel(cur, args[cc.Arg].term)+" 1)"))
+				e.v.callsiteHits[con.Key+"/callcount:"+callee]++
+			}
+		}
+	}
 	if con == nil || len(con.CallSites) == 0 {
 		return
 	}
@@ -636,13 +700,6 @@ func (e *Enc) callsiteChecks(fr *frame, st *State, callee string, fn *ssa.Functi
 			continue
 		}
 		env := e.frameEnv(fr, st)
-		if fn != nil {
-			for i, p := range fn.Params {
-				if i < len(args) {
-					env.vars[p.Name()] = args[i]
-				}
-			}
-		}
 		for i, a := range args {
 			env.vars[fmt.Sprintf("arg%d", i)] = a
 		}
